@@ -181,7 +181,9 @@ def build_stanza(d, seq=1):
         if d.get("lead"):
             kids.insert(0, N("x-verif-lead", {"v": "1"}))
         if d.get("trail"):
-            kids.append(N("x-verif-trail", {"v": "2"}))
+            # `trail` > 1: the unknown element carries that many bytes of data (a stanza is formatted for log lines before it is answered,
+            # and the formatting treats data beyond a size limit differently)
+            kids.append(N("x-verif-trail", {"v": "2"}, None, bytes((i * 7 + 1) % 256 for i in range(d["trail"])) if d["trail"] > 1 else None))
         node = N(node.tag, dict(node.attributes), kids, node.getData())
     return node
 
